@@ -302,6 +302,13 @@ def main(argv):
         except ToolError as e:
             log(f"TOOL-ERROR: {e}")
             return 2
+    if argv[0] == "selftest":
+        import selftest
+        try:
+            return selftest.run()
+        except ToolError as e:
+            log(f"TOOL-ERROR: {e}")
+            return 2
     prop = argv[0]
     tier = os.environ.get("VERIF_TIER", "quick")
     replay = None
